@@ -261,7 +261,8 @@ impl Membership<CT> for SimMembership {
 // ------------------------------------------------------------------------------------------ transport
 struct Stream {
     sid: u64,
-    req_rx: mpsc::Receiver<AppendEntriesRequest>,
+    /// `None` after `sc`: the transport side of the request channel is gone, the worker's next send fails
+    req_rx: Option<mpsc::Receiver<AppendEntriesRequest>>,
     resp_tx: mpsc::UnboundedSender<std::result::Result<AppendEntriesResponse, tonic::Status>>,
 }
 struct Election {
@@ -375,7 +376,7 @@ impl Transport<CT> for SimTransport {
         let mut net = self.net.lock().unwrap();
         net.next_sid += 1;
         let sid = net.next_sid;
-        net.streams.insert((self.my_id, peer_id), Stream { sid, req_rx, resp_tx });
+        net.streams.insert((self.my_id, peer_id), Stream { sid, req_rx: Some(req_rx), resp_tx });
         Ok(ReplicationStream {
             sender: req_tx,
             receiver: tokio_stream::wrappers::UnboundedReceiverStream::new(resp_rx).boxed(),
@@ -409,6 +410,9 @@ pub struct Cluster {
     msgs: BTreeMap<u64, Msg>,
     next_msg: u64,
     new_msgs: Vec<u64>,
+    /// client writes still waiting for their answer: (tag, response receiver), in submission order
+    writes: Vec<(u64, d_engine_core::MaybeCloneOneshotReceiver<std::result::Result<d_engine_core::ClientResponse, tonic::Status>>)>,
+    new_acks: Vec<u64>,
 }
 
 fn mock_sm() -> MockStateMachine {
@@ -485,6 +489,8 @@ impl Cluster {
             msgs: BTreeMap::new(),
             next_msg: 1,
             new_msgs: vec![],
+            writes: vec![],
+            new_acks: vec![],
         };
         for _ in 1..=n {
             c.nodes.push(NodeBox {
@@ -580,8 +586,11 @@ impl Cluster {
             keys.sort();
             for k in keys {
                 let s = net.streams.get_mut(&k).unwrap();
-                while let Ok(req) = s.req_rx.try_recv() {
-                    found.push((k.0, k.1, s.sid, req));
+                let sid = s.sid;
+                if let Some(rx) = s.req_rx.as_mut() {
+                    while let Ok(req) = rx.try_recv() {
+                        found.push((k.0, k.1, sid, req));
+                    }
                 }
             }
         }
@@ -596,13 +605,14 @@ impl Cluster {
     fn stream_open(&self, l: u32, p: u32, sid: u64) -> bool {
         let net = self.net.lock().unwrap();
         match net.streams.get(&(l, p)) {
-            Some(s) => s.sid == sid && !s.resp_tx.is_closed(),
+            Some(s) => s.sid == sid && !s.resp_tx.is_closed() && s.req_rx.is_some(),
             None => false,
         }
     }
 
     pub async fn step(&mut self, ev: &str) {
         self.new_msgs.clear();
+        self.new_acks.clear();
         let p: Vec<&str> = ev.split(':').collect();
         let num = |i: usize| -> Option<u64> { p.get(i).and_then(|s| s.parse::<u64>().ok()) };
         match (p[0], num(1), num(2)) {
@@ -618,6 +628,7 @@ impl Cluster {
             }
             ("u", Some(m), _) => self.ev_dup(m),
             ("se", Some(l), Some(q)) => self.ev_stream_error(l as u32, q as u32).await,
+            ("sc", Some(l), Some(q)) => self.ev_stream_closed(l as u32, q as u32),
             ("lf", Some(n), _) if self.is_up(n as u32) => self.ev_log_flushed(n as u32).await,
             ("ac", Some(n), Some(i)) if self.is_up(n as u32) => self.ev_apply_completed(n as u32, i).await,
             ("x", Some(n), Some(k)) if self.valid(n as u32) => self.ev_stop(n as u32, Some(k)).await,
@@ -628,6 +639,33 @@ impl Cluster {
                 }
             }
             _ => {}
+        }
+        self.io_idle().await;
+        // answers that reached the clients during this event (only successes are part of the trace)
+        let mut still = vec![];
+        for (tag, mut rx) in std::mem::take(&mut self.writes) {
+            match rx.try_recv() {
+                Ok(Ok(resp)) => {
+                    if resp.error == d_engine_core::ErrorCode::Success {
+                        self.new_acks.push(tag);
+                    }
+                }
+                Ok(Err(_)) => {}
+                Err(tokio::sync::broadcast::error::TryRecvError::Empty) => still.push((tag, rx)),
+                Err(_) => {}
+            }
+        }
+        self.writes = still;
+    }
+
+    /// Wait until every IO thread has finished the work queued so far, so that the next event never
+    /// overlaps an IO batch of an earlier one (the real IO thread runs on its own OS thread; letting it lag
+    /// across events would make traces depend on OS scheduling).
+    async fn io_idle(&mut self) {
+        for nb in self.nodes.iter() {
+            if let Some(log) = nb.raft_log.as_ref() {
+                let _ = log.flush().await;
+            }
         }
     }
 
@@ -717,7 +755,8 @@ impl Cluster {
     }
 
     async fn ev_write(&mut self, n: u32, x: u64) {
-        let (tx, _rx) = MaybeCloneOneshot::new();
+        let (tx, rx) = MaybeCloneOneshot::new();
+        self.writes.push((x, rx));
         let req = ClientWriteRequest {
             client_id: 1,
             command: Some(WriteOperation::Insert {
@@ -768,7 +807,7 @@ impl Cluster {
         {
             let net = self.net.lock().unwrap();
             if let Some(s) = net.streams.get(&(to, from)) {
-                if s.sid == sid {
+                if s.sid == sid && s.req_rx.is_some() {
                     let _ = s.resp_tx.send(Ok(resp));
                 }
             }
@@ -793,7 +832,7 @@ impl Cluster {
         let sid = {
             let net = self.net.lock().unwrap();
             match net.streams.get(&(l, q)) {
-                Some(s) if !s.resp_tx.is_closed() => {
+                Some(s) if !s.resp_tx.is_closed() && s.req_rx.is_some() => {
                     let _ = s.resp_tx.send(Err(tonic::Status::unavailable("sim: stream broken")));
                     s.sid
                 }
@@ -810,6 +849,32 @@ impl Cluster {
             }
         }
         self.quiesce(l).await;
+    }
+
+    /// The transport end of the request channel of stream L->P goes away (connection torn down): nothing
+    /// happens at the leader until its worker tries to send, fails, reports PeerStreamError and reconnects.
+    fn ev_stream_closed(&mut self, l: u32, q: u32) {
+        if !self.is_up(l) {
+            return;
+        }
+        let sid = {
+            let mut net = self.net.lock().unwrap();
+            match net.streams.get_mut(&(l, q)) {
+                Some(s) if !s.resp_tx.is_closed() && s.req_rx.is_some() => {
+                    s.req_rx = None;
+                    s.sid
+                }
+                _ => return,
+            }
+        };
+        self.msgs.retain(|_, m| !matches!(m, Msg::Resp { sid: s, .. } if *s == sid));
+        for m in self.msgs.values_mut() {
+            if let Msg::Ae { sid: s, reply, .. } = m {
+                if *s == sid {
+                    *reply = false;
+                }
+            }
+        }
     }
 
     async fn ev_log_flushed(&mut self, n: u32) {
@@ -833,6 +898,14 @@ impl Cluster {
     }
 
     async fn ev_apply_completed(&mut self, n: u32, i: u64) {
+        // the state machine worker only ever applies committed entries
+        let commit = match &self.nb(n).slot {
+            Slot::Up(raft) => raft.verif_cluster_observe(&[]).commit_index,
+            _ => return,
+        };
+        if i > commit {
+            return;
+        }
         if let Slot::Up(raft) = &mut self.nb(n).slot {
             let results = (1..=i).map(ApplyResult::success).collect();
             let _ = raft.internal_event_sender().send(InternalEvent::ApplyCompleted { last_index: i, results });
@@ -944,6 +1017,10 @@ impl Cluster {
                 out.push_str(&ms.join("+"));
             }
         }
+        if !self.new_acks.is_empty() {
+            out.push('!');
+            out.push_str(&self.new_acks.iter().map(|t| t.to_string()).collect::<Vec<_>>().join("+"));
+        }
         out
     }
 
@@ -991,12 +1068,19 @@ impl Cluster {
     }
     pub fn open_streams(&self) -> Vec<(u32, u32)> {
         let net = self.net.lock().unwrap();
-        let mut v: Vec<_> = net.streams.iter().filter(|(_, s)| !s.resp_tx.is_closed()).map(|(k, _)| *k).collect();
+        let mut v: Vec<_> =
+            net.streams.iter().filter(|(_, s)| !s.resp_tx.is_closed() && s.req_rx.is_some()).map(|(k, _)| *k).collect();
         v.sort();
         v
     }
     pub fn n(&self) -> u32 {
         self.n
+    }
+    pub fn commit_of(&self, id: u32) -> u64 {
+        match &self.nodes[(id - 1) as usize].slot {
+            Slot::Up(r) => r.verif_cluster_observe(&[]).commit_index,
+            _ => 0,
+        }
     }
 }
 
